@@ -82,6 +82,8 @@ def argv_strategy(draw, big=False):
             d = last_d
         last_d = d
         n = draw(st.integers(1, 12 if not big else 40))
+        if draw(st.integers(0, 24)) == 0:
+            n = draw(st.sampled_from([64, 90, 100, 110, 128, 150]))        # occasionally a long, finely divided wire
         L = n * lam * draw(st.sampled_from([0.02, 0.04, 0.05]))
         q = p + d * L
         flds = []
@@ -150,6 +152,11 @@ def argv_strategy(draw, big=False):
     if draw(st.integers(0, 5)) == 0 and (contra or any(o[3] for o in objs)):
         add('--taper-wire', [anytag(wire_only=not (contra and draw(st.booleans()))), num(str(draw(st.integers(1, 3))), 'i')]
             + ([num(round(0.005 * lam, 4))] if draw(st.booleans()) else []) + ([num(round(0.06 * lam, 4))] if draw(st.integers(0, 3)) == 0 else []))
+    long_ = [o for o in objs if o[3] and o[2] >= 60]
+    if long_ and draw(st.booleans()):
+        # tapering a long, finely divided wire (from both ends, mostly) with a maximum segment length
+        add('--taper-wire', [num(str(long_[0][1]), 'i'), num(str(draw(st.sampled_from([3, 3, 1, 2]))), 'i'), num(0.0),
+                             num(round(draw(st.sampled_from([0.06, 0.08, 0.1, 0.15])) * lam, 4))])
     for i in range(draw(st.sampled_from([0, 0, 0, 1, 2]))):
         kind = draw(st.sampled_from(['--geo-rotate', '--geo-translate']))
         # equal sort keys are legitimate: such transformations are applied in the order given
